@@ -13,6 +13,9 @@ side never has unread or still-arriving data):
   c  both sides write; the designated closer calls loseConnection() only after its own ops are done
      AND it has received the peer's announced total;
   d  the aborting side calls abortConnection() after a generated number of write ops.
+  e  like a, but the sender asks for a half close and a full close back to back while its writes are
+     still buffered: loseWriteConnection(); loseConnection() (variant 1: one more write between
+     the two; variant 2: the two calls in the other order) - the peer must still get every byte.
 Write ops: write(n) incl. n=0, writeSequence([..]) incl. empty chunks/empty list, delays (writes
 issued from callLater), single writes up to the whole payload.
 
@@ -20,7 +23,7 @@ Monitor (per protocol, at the application boundary): every dataReceived (running
 incremental comparison with the peer's generated payload -> first differing offset), every
 connectionLost(reason), anything delivered after connectionLost.  Oracle (decided in the parent,
 which regenerates the payloads and re-checks the digests independently):
-  a-c  received == sent (both directions); exactly one connectionLost per protocol, reason
+  a-c,e  received == sent (both directions); exactly one connectionLost per protocol, reason
        ConnectionDone, nothing after it;
   d    received is a prefix of sent (both directions); exactly one connectionLost per protocol; the
        aborting side's reason is ConnectionAborted (documented meaning of error.ConnectionAborted; DESIGN C15); the
@@ -34,7 +37,7 @@ import random
 LEVEL = "exploration"
 ENGINE = "E6-reactorproc"
 TECHNIQUE = "runtime monitoring: received-stream == generated payload (digest + incremental compare) and connectionLost exactly-once/reason checks on real loopback sockets per reactor"
-RULE = ("one case = (reactor class, connection spec); a spec = scenario kind a/b/c/d, closing/aborting role, per-direction "
+RULE = ("one case = (reactor class, connection spec); a spec = scenario kind a/b/c/d/e, closing/aborting role, per-direction "
         "payload (0..256 KiB quick, 0..4 MiB thorough) cut into generated write/writeSequence/delay ops, socket buffer "
         "sizes, receiver pause plans; the same specs run on all four reactors; distinct by (reactor, spec); "
         "non-trivial = at least one byte sent in some direction")
@@ -46,9 +49,9 @@ ASSUMPTIONS = [
 SHARDS = {"quick": 4, "thorough": 16}
 FLOORS = {
     "quick": {"conns_decided": 40, "connectionlost_observed": 80, "bytes_received": 1000000, "decided_select": 10, "decided_poll": 10,
-              "decided_epoll": 10, "decided_asyncio": 10, "kind_a": 4, "kind_b": 4, "kind_c": 4, "kind_d": 4, "conns_exceeding_socket_buffers": 12},
+              "decided_epoll": 10, "decided_asyncio": 10, "kind_a": 4, "kind_b": 4, "kind_c": 4, "kind_d": 4, "kind_e": 4, "conns_exceeding_socket_buffers": 12},
     "thorough": {"conns_decided": 100, "connectionlost_observed": 200, "bytes_received": 10000000, "decided_select": 25, "decided_poll": 25,
-                 "decided_epoll": 25, "decided_asyncio": 25, "kind_a": 8, "kind_b": 8, "kind_c": 8, "kind_d": 8, "conns_exceeding_socket_buffers": 30},
+                 "decided_epoll": 25, "decided_asyncio": 25, "kind_a": 8, "kind_b": 8, "kind_c": 8, "kind_d": 8, "kind_e": 8, "conns_exceeding_socket_buffers": 30},
 }
 WATCHDOG_S = {"quick": 600, "thorough": 3000}
 READY = True
@@ -96,6 +99,7 @@ def scenario(reactor, inp):
             self.read_closed = self.write_closed = False
             self.closing = False
             self.aborted = False
+            self.half_requested = False
             self.pauses = [list(p) for p in spec["pauses"][role]]
             self.n_pauses = 0
 
@@ -123,6 +127,10 @@ def scenario(reactor, inp):
                     self.transport.abortConnection()
                     return
                 op = self.ops.pop(0)
+                if (self.kind == "e" and self.role == self.spec["closer"] and self.spec["e_variant"] == 1 and op[0] != "d"
+                        and not any(o[0] != "d" for o in self.ops) and not self.half_requested):
+                    self.half_requested = True  # last write op: half close requested just before it
+                    self.transport.loseWriteConnection()
                 if op[0] == "d":
                     reactor.callLater(op[1] / 1000.0, self.run_ops)
                     return
@@ -137,6 +145,17 @@ def scenario(reactor, inp):
                 if self.role == self.spec["closer"]:
                     self.closing = True
                     self.transport.loseConnection()
+            elif k == "e":
+                if self.role == self.spec["closer"]:
+                    self.closing = True
+                    v = self.spec["e_variant"]
+                    if v == 2:
+                        self.transport.loseConnection()
+                        self.transport.loseWriteConnection()
+                    else:
+                        if not self.half_requested:
+                            self.transport.loseWriteConnection()
+                        self.transport.loseConnection()
             elif k == "b":
                 self.transport.loseWriteConnection()
             elif k == "c":
@@ -354,15 +373,19 @@ def gen_pauses(rng, total):
 
 
 def gen_spec(rng, cid, quick):
-    kind = "abcd"[cid % 4] if rng.random() < 0.8 else rng.choice("abcd")
+    kind = "abcde"[cid % 5] if rng.random() < 0.8 else rng.choice("abcde")
     closer = rng.choice(["client", "server"])
     spec = {"id": cid, "kind": kind, "closer": closer, "seed": rng.randrange(2 ** 40),
             "sndbuf": rng.choice([4096, 8192, 16384]), "rcvbuf": rng.choice([4096, 8192, 16384])}
     if rng.random() < 0.25:
         spec["sndbuf"] = spec["rcvbuf"] = 0  # kernel defaults
     tot = {"client": gen_total(rng, quick), "server": gen_total(rng, quick)}
-    if kind == "a":
+    if kind in "ae":
         tot["server" if closer == "client" else "client"] = 0
+    if kind == "e":
+        spec["e_variant"] = rng.choice([0, 0, 1, 2])
+        if rng.random() < 0.7:
+            tot[closer] = max(tot[closer], rng.randint(40000, 262144))  # a large write still pending at the close
     if kind == "d" and rng.random() < 0.5:
         tot["server" if closer == "client" else "client"] = 0
     spec["c2s"] = {"total": tot["client"], "ops": gen_ops(rng, tot["client"])}
